@@ -2,7 +2,7 @@
 import json, os
 from .context import Ctx
 from .report import Report
-from . import rules_effects, rules_own, rules_wipe, rules_tables, rules_bits, rules_api
+from . import rules_effects, rules_own, rules_wipe, rules_tables, rules_bits, rules_api, rules_char
 
 TB_COMMON = ['clang-14 parsing and -O0 lowering of C11 (+ opt-14 mem2reg)', 'LLVM x86-64 data layout',
              'tools/irfacts.cc (IR -> JSON, no analysis)', 'psa/ir.py CFG, dominators, inclusion-based points-to']
@@ -173,6 +173,13 @@ def c17(ctx, rep):
             'separators, compared with the compiled sizeof(polyseed_str); exit summary of encode ties the sum to the 16+15 writer calls')
 
 
+def c19(ctx, rep):
+    rules_char.char_sites(ctx, rep)
+    rules_char.byte_order_tables(ctx, rep)
+    return ('type-resolved AST rule: every promotion site of a plain-char value is classified by its consumer; relational comparisons '
+            'between two plain chars are covered by the table condition (lists strictly increasing in both byte orders)')
+
+
 REGISTRY = {
     'C05': dict(fn=c05, level='proof', tb=TB_COMMON + ['psa/bitflow.py', 'psa/harness.py summaries']),
     'C09': dict(fn=c09, level='other', tb=TB_COMMON + ['psa/bitflow.py', 'psa/harness.py summaries']),
@@ -189,6 +196,7 @@ REGISTRY = {
     'C07': dict(fn=c07, level='other', tb=TB_COMMON + ['Python unicodedata', 'ref/languages.json + ref/words (transcribed from the pinned release)']),
     'C17': dict(fn=c17, level='proof', tb=TB_COMMON + ['Python unicodedata']),
     'C18': dict(fn=c18, level='other', tb=TB_COMMON),
+    'C19': dict(fn=c19, level='proof', tb=['clang-14 parsing and type checking (AST JSON dump)', 'psa/rules_char.py consumer classification', 'IR constant extraction for the word lists']),
     'C20': dict(fn=c20, level='proof', tb=TB_COMMON),
 }
 
